@@ -631,22 +631,39 @@ type c04Hist struct {
 	ncInside []netip.Addr
 	shared   map[netip.Prefix]bool
 	notes    []string
+
+	// round 4: an address inside every CIDR of the universe (whatever was ever
+	// stored is among them), looked up after every step
+	inside  []netip.Addr
+	dupLast map[netip.Prefix]bool
+
+	also     []string
+	alsoSeen map[string]bool
 }
 
 func c04NewHist(t *testing.T, r *vfRand, ids []string) *c04Hist {
 	c04SchedOf = map[*schedule.Weekly]*c04Sched{}
 	d := &c04DHCP{tbl: map[netip.Addr]net.HardwareAddr{}}
+	// round 4: whether DHCP leases are shown as RUNTIME clients (home's
+	// clients.runtime_sources.dhcp) has no say in matching persistent clients
+	rtDHCP := r.Fork(78).Bool()
 	s, err := NewStorage(context.Background(), &StorageConfig{
-		Logger: slogutil.NewDiscardLogger(),
-		Clock:  timeutil.SystemClock{},
-		DHCP:   d,
+		Logger:            slogutil.NewDiscardLogger(),
+		Clock:             timeutil.SystemClock{},
+		DHCP:              d,
+		RuntimeSourceDHCP: rtDHCP,
 	})
 	if err != nil {
 		t.Fatal(err)
 	}
 	h := &c04Hist{t: t, r: r, s: s, dhcp: d, uids: &c04UIDs{m: map[UID]uint64{}}, ref: &c04Ref{byName: map[string]*Persistent{}},
 		ids: ids, cls: map[string]bool{}, nOK: map[string]int{}, moved: map[string]uint64{}, addrs: map[string]bool{},
-		now: time.Now()}
+		now: time.Now(), dupLast: map[netip.Prefix]bool{}}
+	if rtDHCP {
+		h.cls["storage-runtime-dhcp-on"] = true
+	} else {
+		h.cls["storage-runtime-dhcp-off"] = true
+	}
 	h.fconf = &filtering.Config{
 		DataDir:              c04DataDir,
 		ApplyClientFiltering: s.ApplyClientFiltering,
@@ -682,6 +699,15 @@ func c04NewHist(t *testing.T, r *vfRand, ids []string) *c04Hist {
 		h.ncInside = append(h.ncInside, netip.MustParseAddr(in))
 	}
 	h.shared = map[netip.Prefix]bool{}
+	for _, id := range ids {
+		if pref, perr := netip.ParsePrefix(id); perr == nil {
+			in := c04Inside(pref)
+			h.inside = append(h.inside, in)
+			if !slices.Contains(spell, in.String()) {
+				spell = append(spell, in.String())
+			}
+		}
+	}
 	for _, sp := range spell {
 		if strings.Contains(sp, "/") {
 			continue
@@ -729,6 +755,16 @@ func c04NewHist(t *testing.T, r *vfRand, ids []string) *c04Hist {
 }
 
 var c04DataDir string
+
+// c04Inside gives an address inside the prefix: the first one after the
+// network address (the address itself for a full-length prefix).
+func c04Inside(p netip.Prefix) netip.Addr {
+	a := p.Masked().Addr()
+	if p.Bits() < a.BitLen() {
+		a = a.Next()
+	}
+	return a
+}
 
 // observeAAF runs DNSFilter.ApplyAdditionalFiltering (the storage behind it)
 // for every (ClientID, address) pair on fresh settings, at one instant: it is
@@ -842,6 +878,14 @@ func (h *c04Hist) monitorAAF(t0 time.Time, got []*filtering.Settings) {
 func (h *c04Hist) fail(key, msg string) {
 	if h.monMsg == "" {
 		h.monMsg, h.monKey, h.monAt = msg, key, len(h.desc)
+		h.alsoSeen = map[string]bool{key: true}
+		return
+	}
+	// the first failure is the verdict; the first message of up to five OTHER
+	// failure kinds later in the same history goes into the case description
+	if !h.alsoSeen[key] && len(h.also) < 5 {
+		h.alsoSeen[key] = true
+		h.also = append(h.also, fmt.Sprintf("[%s, step %d] %s", key, len(h.desc), msg))
 	}
 }
 
@@ -933,6 +977,17 @@ func (h *c04Hist) monitor(opDesc string, errClass int) {
 	}()
 	h.monitorState(opDesc, errClass)
 	h.monitorCIDR(opDesc)
+	h.monitorInside(opDesc)
+	// a CIDR that was listed twice and sorted last when added is gone again
+	stored := map[netip.Prefix]bool{}
+	for _, n := range h.ref.nets() {
+		stored[n.s] = true
+	}
+	for s := range h.dupLast {
+		if !stored[s] {
+			h.cls["dup-subnet-gone"] = true
+		}
+	}
 }
 
 type c04Net struct {
@@ -1222,6 +1277,99 @@ func (h *c04Hist) monitorState(opDesc string, errClass int) {
 	}
 }
 
+// monitorInside (round 4): after every step, a request from inside every CIDR
+// of the universe (so from inside every CIDR that was EVER stored, its owner
+// removed or updated away since, or not), without a ClientID and with one no
+// client has registered, resolves to the current owner by precedence or to
+// nobody, through ApplyClientFiltering, Find and FindByClientIDOrIP, and none
+// of them panics.
+func (h *c04Hist) monitorInside(opDesc string) {
+	for _, a := range h.inside {
+		for _, cid := range []string{"", "unregistered"} {
+			wantP, how := h.ref.resolve(cid, a, h.dhcp, nil)
+			wn := ""
+			if wantP != nil {
+				wn = wantP.Name
+			}
+			g := h.applyACF(c04Pair{cid: cid, a: a})
+			if g == nil {
+				h.fail("acf-panic", fmt.Sprintf("after %s ApplyClientFiltering(%q, %v) panicked (an address inside a CIDR of the history)", opDesc, cid, a))
+			} else if g.ClientName != wn {
+				h.fail("acf-inside-cidr", fmt.Sprintf("after %s ApplyClientFiltering(%q, %v) attributes the request to %q, by precedence (%s) it is %q", opDesc, cid, a, g.ClientName, how, wn))
+			}
+		}
+		wantP, how := h.ref.resolve("", a, h.dhcp, nil)
+		wn := ""
+		if wantP != nil {
+			wn = wantP.Name
+		}
+		for _, what := range []string{"Find", "FindByClientIDOrIP"} {
+			gn, panicked := "", false
+			func() {
+				defer func() {
+					if rec := recover(); rec != nil {
+						panicked = true
+					}
+				}()
+				var p *Persistent
+				var ok bool
+				if what == "Find" {
+					p, ok = h.s.Find(a.String())
+				} else {
+					p, ok = h.s.FindByClientIDOrIP(a.String())
+				}
+				if ok && p != nil {
+					gn = p.Name
+				} else if ok {
+					gn = "<nil client, found=true>"
+				}
+			}()
+			if panicked {
+				h.fail("find-panic", fmt.Sprintf("after %s %s(%q) panicked (an address inside a CIDR of the history)", opDesc, what, a))
+			} else if gn != wn {
+				h.fail("find-inside-cidr", fmt.Sprintf("after %s %s(%q) gives %q, by precedence (%s) it is %q", opDesc, what, a, gn, how, wn))
+			}
+		}
+	}
+}
+
+// noteDuplicates (round 4): classes of an ACCEPTED record that lists an
+// identifier twice (SetIDs keeps both, the registry accepts it), and of a
+// duplicate CIDR that sorts after every CIDR stored at that moment.
+func (h *c04Hist) noteDuplicates(p *Persistent, others []c04Net) {
+	for i := 1; i < len(p.ClientIDs); i++ {
+		if p.ClientIDs[i] == p.ClientIDs[i-1] {
+			h.cls["dup-id-cid"] = true
+		}
+	}
+	for i := 1; i < len(p.IPs); i++ {
+		if p.IPs[i] == p.IPs[i-1] {
+			h.cls["dup-id-ip"] = true
+		}
+	}
+	for i := 1; i < len(p.MACs); i++ {
+		if slices.Equal(p.MACs[i], p.MACs[i-1]) {
+			h.cls["dup-id-mac"] = true
+		}
+	}
+	for i := 1; i < len(p.Subnets); i++ {
+		if p.Subnets[i] != p.Subnets[i-1] {
+			continue
+		}
+		h.cls["dup-id-subnet"] = true
+		last := true
+		for _, o := range others {
+			if o.owner != p.Name && subnetCompare(o.s, p.Subnets[i]) >= 0 {
+				last = false
+			}
+		}
+		if last {
+			h.cls["dup-subnet-sorts-last"] = true
+			h.dupLast[p.Subnets[i]] = true
+		}
+	}
+}
+
 func (h *c04Hist) record(coqOp, desc string, errClass int) {
 	h.cls["err-"+c04ErrNames[errClass]] = true
 	h.monitor(desc, errClass)
@@ -1246,6 +1394,7 @@ func (h *c04Hist) add(p *Persistent) {
 	coq := vfApp("HOp", vfApp("OAdd", c04Client(h.uids, p)))
 	desc := fmt.Sprintf("add %s %v tags=%q ups=%q", p.Name, p.IDs(), p.Tags, p.Upstreams)
 	h.noteTokens(p)
+	before := h.ref.nets()
 	err, panicked := h.guard(func() error { return h.s.Add(context.Background(), p) })
 	if panicked {
 		h.unexplainedPanic(desc, p)
@@ -1257,6 +1406,7 @@ func (h *c04Hist) add(p *Persistent) {
 		h.ref.byName[p.Name] = c04Clone(p)
 		h.nOK["add"]++
 		h.noteOwned(p)
+		h.noteDuplicates(p, before)
 	}
 	h.record(coq, desc, c04ErrClass(err))
 }
@@ -1266,6 +1416,12 @@ func (h *c04Hist) update(name string, p *Persistent) {
 	desc := fmt.Sprintf("update %s := %s %v tags=%q ups=%q", name, p.Name, p.IDs(), p.Tags, p.Upstreams)
 	old := h.ref.byName[name]
 	h.noteTokens(p)
+	var before []c04Net
+	for _, n := range h.ref.nets() {
+		if n.owner != name {
+			before = append(before, n)
+		}
+	}
 	err, panicked := h.guard(func() error { return h.s.Update(context.Background(), name, p) })
 	if panicked {
 		h.unexplainedPanic(desc, p)
@@ -1288,6 +1444,7 @@ func (h *c04Hist) update(name string, p *Persistent) {
 		h.ref.byName[p.Name] = c04Clone(p)
 		h.nOK["update"]++
 		h.noteOwned(p)
+		h.noteDuplicates(p, before)
 	}
 	h.record(coq, desc, c04ErrClass(err))
 }
@@ -1484,6 +1641,9 @@ func (h *c04Hist) emit(out *vfOut, tag string) {
 	if len(h.notes) > 0 {
 		desc["same_network_two_clients"] = h.notes
 	}
+	if len(h.also) > 0 {
+		desc["later_failures"] = h.also
+	}
 	c := vfCase{Coq: coq, Classes: classes, MonitorOK: h.monMsg == "", MonitorMsg: h.monMsg,
 		Nontrivial: nFail > 0 && h.nOK["update"]+h.nOK["remove"] > 0,
 		Desc:       desc}
@@ -1516,7 +1676,45 @@ func (h *c04Hist) randClient() *Persistent {
 	if len(h.ncIDs) > 1 && r.Chance(1, 2) {
 		ids = append(ids, vfPick(r, h.ncIDs))
 	}
-	return c04Mk(name, c04Dedup(ids), r)
+	return c04Mk(name, h.withDuplicates(ids), r)
+}
+
+// withDuplicates (round 4): identifier lists are NOT de-duplicated (SetIDs
+// keeps every occurrence and the registry accepts a record that lists an
+// identifier twice); on top of the repeats the draws give, now and then one
+// identifier is listed again, CIDRs preferred, sometimes in another spelling
+// of the same MAC / ClientID.
+func (h *c04Hist) withDuplicates(ids []string) []string {
+	r := h.r
+	if len(ids) == 0 || !r.Chance(1, 3) {
+		return ids
+	}
+	d := vfPick(r, ids)
+	for _, id := range ids {
+		if strings.Contains(id, "/") && r.Chance(2, 3) {
+			d = id
+			break
+		}
+	}
+	switch {
+	case r.Chance(1, 4) && c04IsMAC6(d):
+		d = strings.ToUpper(strings.ReplaceAll(d, ":", "-"))
+	case r.Chance(1, 4) && !strings.ContainsAny(d, ":-/.%"):
+		d = strings.ToUpper(d)
+	}
+	ids = append(ids, d)
+	if r.Bool() {
+		vfShuffle(r, ids)
+	}
+	return ids
+}
+
+func c04IsMAC6(id string) bool {
+	if _, err := netip.ParseAddr(id); err == nil {
+		return false
+	}
+	m, err := net.ParseMAC(id)
+	return err == nil && len(m) == 6 && strings.Count(id, ":") == 5
 }
 
 func c04Dedup(ids []string) (res []string) {
@@ -1566,7 +1764,7 @@ func (h *c04Hist) randOp() {
 			if r.Chance(1, 3) {
 				nn = vfPick(r, c04Names)
 			}
-			p = c04Mk(nn, c04Dedup(ids), r)
+			p = c04Mk(nn, h.withDuplicates(ids), r)
 		} else {
 			p = h.randClient()
 		}
@@ -1801,6 +1999,34 @@ func c04Prelude(t *testing.T, out *vfOut) {
 	h.update("c", ownB(c04Mk("c", []string{"10.7.7.7"}, nil), true, bs(never, 0, "never")))               // own empty list
 	h.remove("a")
 	h.emit(out, "prelude-services")
+
+	// round 4: records that list an identifier TWICE (SetIDs keeps both; the
+	// registry accepts them: nobody else owns the identifier).  Every kind; the
+	// duplicate CIDR is the one that sorts last when it is added (the only one,
+	// the broadest one), then its owner is removed / updated away, and requests
+	// from inside it go to the next containing CIDR or to nobody.
+	h = c04NewHist(t, r.Fork(8), all)
+	h.pairs = []c04Pair{
+		{"", netip.MustParseAddr("10.1.0.1")}, {"", netip.MustParseAddr("10.200.0.1")},
+		{"other", netip.MustParseAddr("10.1.2.77")}, {"", netip.MustParseAddr("8.8.8.8")},
+		{"", netip.MustParseAddr("2001:db8::5")}, {"cli1", netip.MustParseAddr("8.8.8.8")}, {"", netip.MustParseAddr("10.1.2.3")},
+	}
+	h.prev = h.observe()
+	h.add(c04Mk("a", []string{"10.1.0.0/16", "10.1.0.0/16"}, nil)) // the only CIDR, twice
+	h.remove("a")                                                  // nobody owns 10.1.0.1 now
+	h.add(c04Mk("b", []string{"10.0.0.0/8", "10.0.0.0/8", "10.1.2.3", "10.1.2.3"}, nil))
+	h.add(c04Mk("a", []string{"10.1.0.0/16", "cli1", "CLI1", "aa:bb:cc:dd:ee:01", "AA-BB-CC-DD-EE-01"}, nil))
+	h.add(c04Mk("c", []string{"10.1.0.0/16"}, nil))                 // clash with a
+	h.update("b", c04Mk("b", []string{"10.2.0.0/16", "10.1.2.3"}, nil)) // drops the duplicate /8, which sorted last
+	h.remove("a")                                                  // 10.1.0.1: nobody; 10.200.0.1: nobody
+	h.add(c04Mk("d", []string{"0.0.0.0/0", "0.0.0.0/0", "::/0", "::/0"}, nil))
+	h.add(c04Mk("a", []string{"10.0.0.0/8"}, nil))
+	h.remove("d") // the v4 /0 sorted last among v4... and ::/0 last of all
+	h.update("a", c04Mk("a", []string{"10.0.0.0/8", "10.0.0.0/8", "2001:db8::/32", "2001:db8::/32"}, nil))
+	h.update("a", c04Mk("c", []string{"10.1.0.0/16"}, nil)) // rename, drops both duplicates
+	h.remove("b")
+	h.remove("c")
+	h.emit(out, "prelude-duplicates")
 
 	// one network under several spellings (host bits kept by ParsePrefix /
 	// SetIDs): the spellings are different identifiers, so two clients may hold
